@@ -865,6 +865,14 @@ func (p *printer) printSemicolonIfNeeded() {
 	}
 }
 
+// "1.toString" is a syntax error, so print "1 .toString" instead
+func (p *printer) printDotAfterTarget() {
+	if p.needSpaceBeforeDot == len(p.js) {
+		p.print(" ")
+	}
+	p.print(".")
+}
+
 func (p *printer) printSpaceBeforeIdentifier() {
 	if c, _ := utf8.DecodeLastRune(p.js); js_ast.IsIdentifierContinue(c) || p.prevRegExpEnd == len(p.js) || p.prevIdentEscapeEnd == len(p.js) {
 		p.print(" ")
@@ -2659,7 +2667,7 @@ func (p *printer) printExpr(expr js_ast.Expr, level js_ast.L, flags printExprFla
 		switch index := e.Index.Data.(type) {
 		case *js_ast.EPrivateIdentifier:
 			if e.OptionalChain != js_ast.OptionalChainStart {
-				p.print(".")
+				p.printDotAfterTarget()
 			}
 			name := p.renamer.NameForSymbol(index.Ref)
 			p.addSourceMappingForName(e.Index.Loc, name, index.Ref)
@@ -2669,7 +2677,7 @@ func (p *printer) printExpr(expr js_ast.Expr, level js_ast.L, flags printExprFla
 		case *js_ast.ENameOfSymbol:
 			if name := p.mangledPropName(index.Ref); p.canPrintIdentifier(name) {
 				if e.OptionalChain != js_ast.OptionalChainStart {
-					p.print(".")
+					p.printDotAfterTarget()
 				}
 				p.addSourceMappingForName(e.Index.Loc, name, index.Ref)
 				p.printIdentifier(name)
@@ -2680,7 +2688,7 @@ func (p *printer) printExpr(expr js_ast.Expr, level js_ast.L, flags printExprFla
 			if p.options.MinifySyntax {
 				if str, ok := index.Value.Data.(*js_ast.EString); ok && p.canPrintIdentifierUTF16(str.Value) {
 					if e.OptionalChain != js_ast.OptionalChainStart {
-						p.print(".")
+						p.printDotAfterTarget()
 					}
 					p.addSourceMapping(index.Value.Loc)
 					p.printIdentifierUTF16(str.Value)
@@ -2692,7 +2700,7 @@ func (p *printer) printExpr(expr js_ast.Expr, level js_ast.L, flags printExprFla
 			if p.options.MinifySyntax {
 				if value, ok := p.tryToGetImportedEnumValue(index.Target, index.Name); ok && value.String != nil && p.canPrintIdentifierUTF16(value.String) {
 					if e.OptionalChain != js_ast.OptionalChainStart {
-						p.print(".")
+						p.printDotAfterTarget()
 					}
 					p.addSourceMapping(e.Index.Loc)
 					p.printIdentifierUTF16(value.String)
